@@ -26,7 +26,7 @@ HAN = [0xE6, 0xBC, 0xA2]
 
 BOUNDS = {
     'quick': 'L2 update_attributions: old text of <=3 symbolic bytes over {a b SP LF =} (plus templates with é / 漢 / CRLF), new text = old with one edit (insert / delete / replace of 1-2 symbolic bytes at a fixed position, or identical, or unrelated 3-byte text), <=2 previous attributions chosen from 10 layouts (covering, partial, zero-length, out of range, overlapping, unsorted, nested with equal author and timestamp), authors {human, s1, s2}; L3 line projection: content <=5 symbolic bytes over {a SP LF} (+ multi-byte templates), <=2 attributions from the layouts; round trip lines->chars->lines on the same contents; L4 tokenizer: every string of <=3 bytes over {a SP LF = " 0 . \\ x CR} and templates with é/漢, every sub-range on char boundaries',
-    'thorough': 'as quick with texts of <=5 symbolic bytes, 2-byte edits everywhere, 3 attributions',
+    'thorough': 'as quick with old texts of <=4 symbolic bytes (2-byte edits and all ten layouts up to 3 bytes; 1-byte edits and the quick layouts at 4 bytes), tokenizer and line projection up to 5-6 bytes',
 }
 OUTSIDE = 'lines longer than a few bytes and the 32 KiB / 256-line fast paths (thresholds are constants far above the bound); move detection beyond what 4-byte texts allow (needs >=3 equal lines); which minimal edit script imara-diff picks when several exist (one valid script per equality pattern is explored)'
 ASSUMPTIONS = [
@@ -101,6 +101,9 @@ def plan(tier, seed):
                 if n == 0 and lay > 1:
                     continue
                 if tier == 'quick' and n == 3 and lay in (4, 6) and e[0] not in ('same', 'ins'):
+                    continue
+                # thorough: 4-byte old texts only with the 1-byte edits and the quick layouts (625 x 5 byte patterns per shape)
+                if n == 4 and (e[2] > 1 or lay not in (1, 3, 4, 5, 6, 7, 9)):
                     continue
                 tasks.append(('update', {'n': n, 'tpl': None, 'edit': list(e), 'layout': lay}))
     for lay in (1, 2):
